@@ -266,7 +266,7 @@ static void run(uint64_t seed, bool is_set) {
   // ---- configuration
   size_t n0;
   if (is_set) n0 = (size_t[]) {0, 16, 16, 32}[rng.below(4)];
-  else n0 = (size_t[]) {0, 16, 16, 32, 64}[rng.below(5)];
+  else n0 = (size_t[]) {0, 16, 16, 16, 32, 32, 64}[rng.below(7)];
   int nthreads = 2 + (int)rng.below(3);
   size_t cap0 = n0 ? n0 : 16;
   // bad hash family: <= 4 distinct (base, tag) pairs, bases near the end of the ring
@@ -282,7 +282,7 @@ static void run(uint64_t seed, bool is_set) {
   // how many distinct keys: around the capacity (fixed) / enough to grow 1-3 tables (set)
   size_t target, cap;
   if (is_set) {
-    int grow = (int[]) {1, 1, 1, 2, 2, 3}[rng.below(6)];
+    int grow = (int[]) {1, 1, 1, 1, 2, 2, 2, 3}[rng.below(8)];
     size_t nxt = cap0 * 2;   // placeholder: capacity 0, first chained table 32
     cap = n0;
     for (int g = 1; g < grow; ++g) { cap += nxt; nxt *= 2; }
